@@ -876,6 +876,9 @@ class BigWorld:
             k = self.rng.choices(names, weights)[0]
             if len(self.pool) > 10 and k in builders:
                 k = 'drop'
+        while len(self.pool) - len(self.pinned) > 14:
+            # (every held definition is evaluated again after each step)
+            self.s_drop()
         if len(self.raw) > self.size_cap:
             # keep the manager within what a step can check quickly
             for _ in range(len(self.pool)):
